@@ -24,7 +24,7 @@ RULE = ("Floats are built by construction as <integer mantissa of 1..17 digits> 
         "quantity in a compound unit (1-4 unit families, exponents -3..3) optionally re-expressed in another unit of the "
         "same dimension; 'uncert': value with uncertainty 1e-8..0.5 relative, 1..3 uncertainty digits, optionally with "
         "units, the uncertainty given as the `uncertainty` argument or carried by the number itself "
-        "(quantities.UncertainQuantity, with / without unit=), optionally a two-argument callable `fmt` printing "
+        "(quantities.UncertainQuantity, with / without unit=) or both with different sizes (the argument counts), optionally a two-argument callable `fmt` printing "
         "'%.df(%.0f)'; 'roman': 1..3999 exhaustive; 'reaction': five reactions of order 1-3 with float / int / quantity "
         "parameters (unit consistent with the order; magnitude also exactly 0 / 0.0 / -0.0) or a rate expression holding "
         "the number (MassAction([k]), with unique_keys, MassAction([Arrhenius([A, Ea/R])]), with / without units) "
@@ -379,7 +379,11 @@ def uncert_cases(draw):
         xe = float(abs(Fraction(x)) * ratio / 4)
     case = {"x": x, "xe": xe, "p": p, "units": spec, "eunits": espec, "target": target}
     # how the uncertainty reaches the formatter: the `uncertainty` argument, or the attribute of the number itself
-    case["carrier"] = draw(st.sampled_from(["arg", "attr"]))
+    # or both: an UncertainQuantity with an own uncertainty of another size *and* an explicit argument (which is the one
+    # to be printed); "own_factor" = own uncertainty / explicit uncertainty as physical quantities
+    case["carrier"] = draw(st.sampled_from(["arg", "attr", "both"]))
+    if case["carrier"] == "both":
+        case["own_factor"] = draw(st.sampled_from([4.0, 0.25, 30.0, 0.01, 1.5]))
     shown = target if target is not None else spec
     _maybe_callable2(draw, case, Fraction(xe) * unit_factor(espec) / unit_factor(shown))
     return case
@@ -652,6 +656,13 @@ def check_uncert(case, ctx):
             conv_e = CONV_SLACK * (int(espec != spec) + int(shown != spec))
             ctx.label("carrier:attribute:" + ("own_unit" if target is None else
                                               "unit_same" if shown == spec else "unit_converted"))
+        elif carrier == "both":
+            # the explicit argument wins: X, XE and the slacks are those of the argument; the number's own uncertainty
+            # (another size, in the number's unit) must not show
+            own = float(Fraction(xe) * unit_factor(espec) / unit_factor(spec) * Fraction(case["own_factor"]))
+            num = pq.UncertainQuantity(x, unit_object(spec), own)
+            detail["own_uncertainty"] = own
+            ctx.label("carrier:attribute_and_argument", "carrier:both:" + ("eunit_same" if espec == spec else "eunit_other"))
         else:
             ctx.label("carrier:argument")
         want_units = unit_dict(shown)
@@ -903,7 +914,7 @@ SUBCHECKS = [
              tolerances={"conversion_rel": float(CONV_SLACK)}),
     SubCheck("uncert", check_uncert, strategy=uncert_cases(), quick=6000, thorough=300000,
              rule="x(G4), xe = r|x| with r in [1e-8, 0.5], p in 1..3/default, every 4th case with units (uncertainty as "
-                  "argument or as attribute of an UncertainQuantity), every 8th with a two-argument callable fmt",
+                  "argument, as attribute of an UncertainQuantity, or both - then the argument is the one printed), every 8th with a two-argument callable fmt",
              tolerances={"float_rounding_rel": float(FLOAT_SLACK), "conversion_rel": float(CONV_SLACK),
                          "near_power_of_ten_rel": float(NEAR)}),
     SubCheck("roman", check_roman, enumerate=enum_roman, rule="1..3999 exhaustive: own decoder and canonical-numeral regex"),
